@@ -217,6 +217,17 @@ CLAIMED = {
         "range, col) and crashes, plus a Python spec oracle written from the property text."),
   technique="Lean 4 proof (case analysis on Except-monad models, omega, decide +kernel over generated tables) + differential correspondence + spec oracle",
   design="DESIGN.md section 7 C15"),
+ "C19": dict(
+  text=("Lean theorems (lean/Props/C19.lean): downstream_channel_independent — the per-file scan is a function of exactly (AST, comment map, decoded lines): the channel is not an input of the model "
+        "at all; bidi_complete (for ANY table and text: the scan finds a listed character iff one occurs on some line — comment, string, first or last line alike), bidi_position_valid (reported "
+        "line = first line containing a listed character, the character stands at the reported 1-based column, no earlier line contains one), b613_iff, b613_total, gen_bidi_covers_published "
+        "(decide over the table regenerated from /repo). PARTIAL by nature: that CPython produces the same text/AST for LF vs CRLF, BOM vs none, transcoded files with a cookie, file vs stdin is runtime "
+        "behaviour — explored on every run: seeded programs x {file, stdin} x {LF, CRLF} x {BOM, none} x {utf-8, utf-8 cookie, latin-1, cp1252} through the real CLI must yield identical findings and "
+        "locations; every bidi control character at 7 kinds of position x {file, stdin} x {LF, CRLF} must be B613 HIGH/MEDIUM on its line (and the Lean model must agree on line and column); files "
+        "their declared encoding cannot decode must be skipped with a reason without disturbing other files. The stdin defect of the pinned commit (B613 re-opened '<stdin>' by name) was repaired "
+        "in /repo (fix: commit 753942f)."),
+  technique="Lean 4 proof (scan completeness/position by list induction; channel independence by construction) + cross-channel correspondence through the real CLI",
+  design="DESIGN.md section 7 C19"),
 }
 
 REASON_PENDING = "check not built yet (work in progress; DESIGN.md section 11 gives the build order)"
